@@ -1236,6 +1236,10 @@ def m_hash_write(I, fr, a, ck):
     return UNIT
 
 
+def m_ptr_hash(I, fr, a, ck):
+    return m_hash_write(I, fr, a, ck)
+
+
 def m_discriminant_value(I, fr, a, ck):
     v = I.peel_all(a[0], fr)
     return Disc(v)
@@ -1361,7 +1365,13 @@ def register_all(M):
     for t in ('isize', 'usize', 'bool', 'u64', 'i64', 'u32', 'u8', 'String', 'str'):
         A(t, 'Hash', 'hash', m_hash_write)
     A(None, 'Hash', 'hash', m_hash_write)
+    A('ptr', None, 'hash', m_hash_write)
     A('intrinsics', None, 'discriminant_value', m_discriminant_value)
+    A('mem', None, 'discriminant', m_discriminant_value)
+    A(None, None, 'discriminant', m_discriminant_value)
+    A(None, None, 'hash', m_hash_write)
+    A('Discriminant', 'Hash', 'hash', m_hash_write)
+    A('Discriminant', 'PartialEq', 'eq', m_partial_eq)
 
 
 # ------------------------------------------------------------------------------------------------ more std models
